@@ -10,10 +10,10 @@ ex = S.ex
 PROP = "C20"
 META = {
     "level": "exploration",
-    "claim": "Held on the executed runs: SmartCloudSync over mock providers is driven through sequences of remote creates / edits / deletes / mkdirs, local creates / edits, requests and un-requests by path and by id, with auto-sync predicates {never, by extension, random table} and random engine-step interleavings; at every quiescent point the local tree equals the model (all folders mirrored; a remote-only file is present locally iff it was requested by path, id or predicate and not un-requested; local creations are on the remote side; requested files track remote edits and local edits reach the remote), un-requesting never touches the remote copy and first uploads a newer local edit, and the merged listing of every folder reports each local file as synced and each not-downloaded remote file as not synced.",
+    "claim": "Held on the executed runs: SmartCloudSync over mock providers is driven through sequences of remote creates / edits / deletes / renames (within and across folders) / mkdirs, local deletes of downloaded files, local creates / edits, requests and un-requests by path and by id, with auto-sync predicates {never, by extension, random table} and random engine-step interleavings; at every quiescent point the local tree equals the model (all folders mirrored; a remote-only file is present locally iff it was requested by path, id or predicate and not un-requested; local creations are on the remote side; requested files track remote edits and local edits reach the remote), un-requesting never touches the remote copy and first uploads a newer local edit, and the merged listing of every folder reports each local file as synced and each not-downloaded remote file as not synced.",
     "note": "Trusted: the sequential model of the statement (operations on one file never race with each other: the harness quiesces between two operations on the same file; operations on different files interleave freely with engine steps). Flavours: local path-id or id-style, remote id-style (as the suite pairs them).",
     "technique": "runtime monitoring: model-based comparison of trees and merged listings at quiescent points of generated on-demand histories",
-    "plan": {"quick": {"shards": 16, "timeout": 600, "cases": 3000},
+    "plan": {"quick": {"shards": 16, "timeout": 600, "cases": 9000},
              "thorough": {"shards": 32, "timeout": 3000, "cases": 120000}},
     "rule": "case = 6-16 operations over 2 folders and fresh file names x predicate x flavour {oo, po} x step gaps; distinct = "
             "distinct op-kind sequence + predicate + flavour; non-trivial = >= 1 request or un-request and >= 1 engine write",
@@ -56,6 +56,8 @@ def run_case(seed, index, acc=None, count=True):
     files = {}
     folders = {""}
     dirty = set()           # files with an operation since the last quiescence (no second op before quiescence)
+    seek25 = index % 8 == 7
+    flags = {"k25": False}
 
     def engine_call(fn, *a):
         w = sim.world
@@ -130,7 +132,7 @@ def run_case(seed, index, acc=None, count=True):
             if probs:
                 break
             k = rng.choice(("rcreate", "rcreate", "rwrite", "rdelete", "lcreate", "lwrite", "request", "request", "unrequest",
-                            "rmkdir"))
+                            "rmkdir", "rrename", "ldelete"))
             cands_remote = [p for p, v in files.items() if v["rdata"] is not None and p not in dirty]
             if k == "rcreate":
                 d = rng.choice(sorted(folders))
@@ -155,6 +157,47 @@ def run_case(seed, index, acc=None, count=True):
                 files[p]["rdata"] = None
                 files[p]["local"] = False
                 dirty.add(p)
+            elif k == "rrename" and cands_remote:
+                # a remote rename (same folder or into another one): a downloaded file follows, a remote-only one stays
+                # remote-only under its new name; whether the new name is wanted by the predicate is decided by the
+                # name the file had when it was first seen unless it was requested (kept simple: only files whose old and
+                # new name the predicate treats alike are renamed)
+                # a file that was requested and un-requested again is renamed only in the seek cases (finding K25: its
+                # entry is excluded from processing, a path-less rename event never refreshes the name the listing shows)
+                cr = [x for x in cands_remote if seek25 or not files[x].get("unreq")]
+                if not cr:
+                    continue
+                p = rng.choice(cr)
+                if files[p].get("unreq"):
+                    flags["k25"] = True
+                d = rng.choice(sorted(folders)) if rng.random() < 0.5 else p.rpartition("/")[0]
+                q = None
+                for _try in range(6):
+                    cand = (d + "/" if d else "") + names.fresh("m")
+                    if wants(cand) == wants(p):
+                        q = cand
+                        break
+                if q is None:
+                    continue
+                sim.user({"side": 1, "op": "rename", "path": p, "to": q})
+                files[q] = files.pop(p)
+                dirty.add(q)
+            elif k == "ldelete":
+                # only files the application requested: the statement promises two-way sync for those (what a plain local
+                # delete of a never-requested, locally created file means in on-demand mode it does not say)
+                c = [p for p, v in files.items() if v["local"] and v.get("req") and v["rdata"] is not None and p not in dirty]
+                if not c:
+                    continue
+                quiesce_and_check()             # the file must really be there before the local user deletes it
+                if probs:
+                    break
+                p = rng.choice(c)
+                r = sim.user({"side": 0, "op": "delete", "path": p})
+                if r.get("ok"):
+                    # kept in sync in both directions: the deletion reaches the remote side
+                    files[p]["rdata"] = None
+                    files[p]["local"] = False
+                    dirty.add(p)
             elif k == "lcreate":
                 d = rng.choice(sorted(folders))
                 p = (d + "/" if d else "") + names.fresh("l")
@@ -227,6 +270,7 @@ def run_case(seed, index, acc=None, count=True):
                         probs.append(("unrequest_touched_the_remote_copy", O.brief_call(c2)))
                 files[p]["local"] = False
                 files[p]["req"] = False
+                files[p]["unreq"] = True
                 dirty.add(p)
             else:
                 continue
@@ -253,7 +297,8 @@ def run_case(seed, index, acc=None, count=True):
         probs.append(("not_quiescent", str(e)))
     finally:
         sim.close()
-    return probs, {"family": "SMART", "flavour": flavour, "predicate": pk, "ops": kinds, "index": index, "seed": seed}
+    return probs, {"family": "SMART", "flavour": flavour, "predicate": pk, "ops": kinds, "index": index, "seed": seed,
+                   "k25": flags["k25"]}
 
 
 def shard(ctx, acc):
@@ -262,7 +307,12 @@ def shard(ctx, acc):
         probs, brief = run_case(ctx.seed, i, acc)
         acc.sample(brief, cap=3)
         if probs:
-            acc.violation(probs[0][0], probs[:4], brief)
+            if brief.get("k25") and all(pp[0] in ("listing_misses_remote_file", "listing_reports_undownloaded_remote_file_as_synced")
+                                        for pp in probs):
+                acc.count("failures_attributed_K25")
+                acc.known_hit("K25", brief)
+            else:
+                acc.violation(probs[0][0], probs[:4], brief)
 
 
 def conclusive(acc, tier):
